@@ -98,6 +98,8 @@ pub enum SEvent {
 	Disconnect { a: usize, b: usize },
 	Reconnect { a: usize, b: usize },
 	Api { node: usize, what: String, ok: bool, detail: String },
+	/// the harness corrupted the secret of a queued revoke_and_ack (adversarial sub-profile of C05)
+	Tamper { from: usize, to: usize, secret: [u8; 32] },
 }
 
 #[derive(Clone, Debug)]
@@ -321,8 +323,8 @@ impl Sim {
 						// error / warning messages are delivered immediately (PeerManager sends them before dropping
 						// the connection); they are not subject to FIFO scheduling
 						self.rec(SEvent::Emit { from, to, wire: wire.clone() });
+						self.rec(SEvent::Deliver { from, to, wire: wire.clone() });
 						self.handle_wire(from, to, &wire);
-						self.rec(SEvent::Deliver { from, to, wire });
 					}
 				}
 				if disconnect && self.emulate_disconnects && self.is_connected(from, to) {
@@ -385,8 +387,9 @@ impl Sim {
 				break;
 			}
 			let Some(wire) = self.links.get_mut(&(from, to)).unwrap().pop_front() else { break };
+			// recorded before processing so that everything the receiver does in response is stamped later
+			self.rec(SEvent::Deliver { from, to, wire: wire.clone() });
 			self.handle_wire(from, to, &wire);
-			self.rec(SEvent::Deliver { from, to, wire });
 			done += 1;
 			self.drain(to);
 			self.drain(from);
